@@ -1277,6 +1277,17 @@ namespace avel {
     }
 
     [[nodiscard]]
+    AVEL_FINL vec2x64f fmod(vec2x64f a, vec2x64f b) {
+        // No vectorized remainder yet: each lane is evaluated with the scalar overload
+        auto x = to_array(a);
+        auto y = to_array(b);
+        for (std::uint32_t i = 0; i < vec2x64f::width; ++i) {
+            x[i] = avel::fmod(x[i], y[i]);
+        }
+        return vec2x64f{x};
+    }
+
+    [[nodiscard]]
     AVEL_FINL vec2x64f fdim(vec2x64f x, vec2x64f y) {
         return blend(x <= y, vec2x64f{0.0}, x - y);
     }
